@@ -277,8 +277,8 @@ func C09(c *Ctx) {
 		"(*bufio.Writer).Flush", "lsm.(*LSM).LogValueLogHead", "lsm.(*LSM).LogValueLogDelete", "lsm.(*LSM).LogValueLogUpdate",
 		"lsm.(*levelManager).LogValueLogHead", "lsm.(*levelManager).LogValueLogDelete", "lsm.(*levelManager).LogValueLogUpdate")
 	exceptions := map[string]string{
-		"utils.AcquireDirLock":    "pid text written into the lock file is informational; the lock itself is the flock",
-		"utils.tryAcquireDirLock": "pid text written into the lock file is informational; the lock itself is the flock",
+		"utils.AcquireDirLock":      "pid text written into the lock file is informational; the lock itself is the flock",
+		"utils.tryAcquireDirLock":   "pid text written into the lock file is informational; the lock itself is the flock",
 		"(*lsm.levelManager).build": "logs deletes of SSTs already missing from disk; best effort by design, state is re-derived on next open",
 	}
 	n := 0
